@@ -883,6 +883,9 @@ func (g *graph) compile(ctx context.Context, opt *graphCompileOptions) (*composa
 	}
 
 	// default options
+	if r.options.maxRunSteps < 0 {
+		return nil, fmt.Errorf("max run steps must not be negative, got %d", r.options.maxRunSteps)
+	}
 	if r.dag && r.options.maxRunSteps > 0 {
 		return nil, fmt.Errorf("cannot set max run steps in dag mode")
 	} else if !r.dag && r.options.maxRunSteps == 0 {
